@@ -48,6 +48,8 @@ type Case struct {
 	GraceMs    int        `json:"grace_ms,omitempty"`
 	BackoffUs  int        `json:"backoff_us,omitempty"`
 	DryAfterMs int        `json:"dryup_timer_ms,omitempty"` // idle streams: a timer tells the paginator to dry up
+	// PurelyStatic: the constructors for static pages receive pages that implement the static interfaces only
+	PurelyStatic bool `json:"purely_static_pages,omitempty"`
 }
 
 var errFetch = errors.New("scripted page fetch failure")
@@ -205,6 +207,22 @@ func (p *page) GetFuture(ctx context.Context) (pagination.IStream, error) {
 
 // ---- generator --------------------------------------------------------------------------------
 
+// staticPage is a page that cannot reach its successors by itself: it offers IStaticPageStream and nothing more (the
+// constructors for static pages must not rely on the page also being a dynamic one).
+type staticPage struct{ p *page }
+
+func (s *staticPage) HasNext() bool                                  { return s.p.HasNext() }
+func (s *staticPage) HasFuture() bool                                { return s.p.HasFuture() }
+func (s *staticPage) GetItemIterator() (pagination.IIterator, error) { return s.p.GetItemIterator() }
+func (s *staticPage) GetItemCount() (int64, error)                   { return s.p.GetItemCount() }
+
+func inner(x interface{}) *page {
+	if sp, ok := x.(*staticPage); ok {
+		return sp.p
+	}
+	return x.(*page)
+}
+
 func genCase(t *rapid.T) Case {
 	c := Case{Ctor: rapid.SampledFrom([]string{"collection", "static", "stream", "static-stream", "abstract"}).Draw(t, "ctor")}
 	stream := c.Ctor == "stream" || c.Ctor == "static-stream"
@@ -243,6 +261,9 @@ func genCase(t *rapid.T) Case {
 		c.GraceMs = rapid.IntRange(1, 5).Draw(t, "grace")
 		c.BackoffUs = rapid.SampledFrom([]int{0, 100, 1000}).Draw(t, "backoff")
 		c.DryAfterMs = rapid.IntRange(1, 8).Draw(t, "dry-timer")
+	}
+	if c.Ctor == "static" || c.Ctor == "static-stream" || c.Ctor == "abstract" {
+		c.PurelyStatic = rapid.Bool().Draw(t, "purely-static")
 	}
 	nops := rapid.IntRange(0, 60).Draw(t, "ops")
 	for i := 0; i < nops; i++ {
@@ -311,19 +332,25 @@ type dryer interface {
 func construct(c *Case, w *world, ctx context.Context) (paginator, error, bool) {
 	first := &page{w: w, idx: 0}
 	grace, backoff := time.Duration(c.GraceMs)*time.Millisecond, time.Duration(c.BackoffUs)*time.Microsecond
+	wrapS := func(n *page) pagination.IStaticPageStream {
+		if c.PurelyStatic {
+			return &staticPage{p: n}
+		}
+		return n
+	}
 	fetchNextStatic := func(fctx context.Context, cur pagination.IStaticPage) (pagination.IStaticPage, error) {
-		n, err := cur.(*page).next(fctx)
+		n, err := inner(cur).next(fctx)
 		if err != nil {
 			return nil, err
 		}
-		return n, nil
+		return wrapS(n), nil
 	}
 	fetchFutureStatic := func(fctx context.Context, cur pagination.IStaticPageStream) (pagination.IStaticPageStream, error) {
-		n, err := cur.(*page).future(fctx)
+		n, err := inner(cur).future(fctx)
 		if err != nil {
 			return nil, err
 		}
-		return n, nil
+		return wrapS(n), nil
 	}
 	var p paginator
 	var err error
@@ -344,7 +371,7 @@ func construct(c *Case, w *world, ctx context.Context) (paginator, error, bool) 
 			if c.FailFirst {
 				return nil, errFetch
 			}
-			return first, nil
+			return wrapS(first), nil
 		}, fetchNextStatic)
 		p, isNil = r, r == nil
 	case "stream":
@@ -362,7 +389,7 @@ func construct(c *Case, w *world, ctx context.Context) (paginator, error, bool) 
 			if c.FailFirst {
 				return nil, errFetch
 			}
-			return first, nil
+			return wrapS(first), nil
 		}, fetchNextStatic, fetchFutureStatic)
 		p, isNil = r, r == nil
 	default:
@@ -370,7 +397,7 @@ func construct(c *Case, w *world, ctx context.Context) (paginator, error, bool) 
 			return nil, errFetch, true // NewAbstractPaginator takes the page itself
 		}
 		var r *pagination.AbstractPaginator
-		r, err = pagination.NewAbstractPaginator(ctx, first, fetchNextStatic)
+		r, err = pagination.NewAbstractPaginator(ctx, wrapS(first), fetchNextStatic)
 		p, isNil = r, r == nil
 	}
 	return p, err, isNil
@@ -505,6 +532,40 @@ func checkCase(t ev.T, test string, c Case) {
 		return true, false
 	}
 
+	// nextIsKnown: the next item to come lies in the page being read or in a page reached from it through next links
+	// only - no future link in between. The grace period bounds the wait for future pages; it says nothing about these.
+	nextIsKnown := func() bool {
+		if yielded >= reachable {
+			return false
+		}
+		last, pos := 0, 0
+		for i := range c.Pages {
+			if yielded > 0 && w.start[i] <= yielded-1 && yielded-1 < w.start[i]+c.Pages[i].Items {
+				last = i
+			}
+			if w.start[i] <= yielded && yielded < w.start[i]+c.Pages[i].Items {
+				pos = i
+				break
+			}
+		}
+		for q := last; q < pos; q++ {
+			if c.Pages[q].Link != "next" {
+				return false
+			}
+		}
+		return true
+	}
+	knownLost := func(i int, what string) {
+		if stream && !stopped && !w.stoppedByFetch.Load() && !w.transient && !blockedByFailure && nextIsKnown() {
+			for _, pg := range c.Pages {
+				if pg.FailFetch != 0 {
+					return
+				}
+			}
+			ev.Fail(t, prop, test, c, "op %d: %s although item %d lies in a page already reached (no future link between the last item yielded and it): the grace period only bounds the wait for future pages (dry-up told=%v, %v ago, grace %v)", i, what, yielded, isDry(), sinceDry().Round(time.Microsecond), grace)
+		}
+	}
+
 	step := func(i int, o Op) {
 		switch o.Kind {
 		case "hasnext":
@@ -529,6 +590,9 @@ func checkCase(t ev.T, test string, c Case) {
 					if !(stream && (isDry() || timerFired.Load())) {
 						ev.Fail(t, prop, test, c, "op %d: HasNext() returned true and then false with no GetNext in between", i)
 					}
+				}
+				if !r {
+					knownLost(i, "stream HasNext() = false")
 				}
 				if !r && stream && !stopped && yielded < reachable && !w.transient && !blockedByFailure {
 					// a stream ended early: allowed only once told to dry up and after the grace period
@@ -565,6 +629,7 @@ func checkCase(t ev.T, test string, c Case) {
 				if item != nil {
 					ev.Fail(t, prop, test, c, "op %d: GetNext() returned both an item (%v) and an error (%v)", i, item, err)
 				}
+				knownLost(i, fmt.Sprintf("stream GetNext() failed (%v)", err))
 				if stream && !stopped && yielded < reachable && !w.transient && !blockedByFailure {
 					if !isDry() {
 						ev.Fail(t, prop, test, c, "op %d: stream GetNext() failed (%v) with %d items still in future pages and no dry-up requested", i, err, reachable-yielded)
@@ -610,6 +675,7 @@ func checkCase(t ev.T, test string, c Case) {
 		n := len(c.Ops)
 		for guard := 0; guard < total+5; guard++ {
 			if !hasNext() {
+				knownLost(n, "stream HasNext() = false (final iteration)")
 				break
 			}
 			step(n, Op{Kind: "getnext"})
